@@ -60,3 +60,41 @@ Example C06_example :
   status r = 200 /\ committed r = true /\ size r = 10 /\ w_status (wr r) = Some 200 /\
   log r = [EvBefore 1%nat false false; EvHeader 200; EvBody 7; EvBody 3; EvAfter 2%nat].
 Proof. vm_compute. repeat split. Qed.
+
+From Coq Require Import String.
+From Echo Require Import Base.GoLite Gen.Src_response Http.ResponseSrc.
+
+(* ---- the tie to the source by proof: Response.WriteHeader / Write / Flush, translated statement by statement from
+   response.go on every run (Gen/Src_response.v; language Base/GoLite.v).  cm, stt, sz are the Committed flag, Status
+   and Size before the call. *)
+Theorem C06_source_writeheader : forall (sym : string -> Z) cm stt sz code,
+  let '(st', _) := GoLite.run sym src_response_writeheader_results src_response_writeheader (rstate cm stt sz [("code", code)] []) in
+  if cm =? 0
+  then GoLite.get (fields st') "r.Status" = code /\ GoLite.get (fields st') "r.Committed" = 1 /\ GoLite.get (fields st') "r.Size" = sz /\
+       events st' = [("range r.beforeFuncs", []); ("r.Writer.WriteHeader", [code])]
+  else GoLite.get (fields st') "r.Status" = stt /\ GoLite.get (fields st') "r.Committed" = cm /\ GoLite.get (fields st') "r.Size" = sz /\
+       map fst (events st') = ["r.echo.Logger.Warn"].
+Proof. exact src_writeheader. Qed.
+Print Assumptions C06_source_writeheader.
+
+Theorem C06_source_write : forall (sym : string -> Z), sym "http.StatusOK" = 200 -> forall cm stt sz b n err,
+  let '(st', ret) := GoLite.run sym src_response_write_results src_response_write (rstate cm stt sz [("b", b)] [[n; err]]) in
+  ret = [n; err] /\
+  GoLite.get (fields st') "r.Size" = sz + n /\
+  GoLite.get (fields st') "r.Status" = (if (cm =? 0) && (stt =? 0) then 200 else stt) /\
+  events st' = ((if cm =? 0 then [("r.WriteHeader", [if stt =? 0 then 200 else stt])] else [])
+                ++ [("r.Writer.Write", [b]); ("range r.afterFuncs", [])])%list.
+Proof. exact src_write. Qed.
+Print Assumptions C06_source_write.
+
+Theorem C06_source_flush : forall (sym : string -> Z), sym "http.StatusOK" = 200 -> sym "nil" = 0 -> forall cm stt sz err notsup,
+  let st := {| locals := []; fields := [("r.Committed", cm); ("r.Status", stt); ("r.Size", sz); ("errors.Is(err,http.ErrNotSupported)", notsup)];
+               events := []; inputs := [[err]] |} in
+  let '(st', _) := GoLite.run sym src_response_flush_results src_response_flush st in
+  GoLite.get (fields st') "r.Size" = sz /\
+  GoLite.get (fields st') "r.Status" = (if (cm =? 0) && (stt =? 0) then 200 else stt) /\
+  map fst (events st') = ((if cm =? 0 then ["r.WriteHeader"] else []) ++ ["http.NewResponseController(r.Writer).Flush"]
+                          ++ (if negb (err =? 0) && negb (notsup =? 0) then ["panic"] else []))%list.
+Proof. exact src_flush. Qed.
+Print Assumptions C06_source_flush.
+
